@@ -184,61 +184,57 @@ def parse_shape(R, ctx):
     """decided on the decision rows of parse() (helpers inlined, so an extracted per-segment helper is the same computation)"""
     f, cg = ctx.f, ctx.cg
     b = ctx.body(r'^log_specification::LogSpecification::parse$')
-    NI = [r'log_specification::push_err$', r'log_specification::contains_whitespace$', r'log_specification::parse_err$', r'parse_level_filter$', r'level_sort$']
-    EFF = NI[:4] + [r'Vec::<T, A>::push$', r'as std::iter::Iterator>::next$']
-    I = FDI(f, effects=EFF, no_inline=NI, loop_k=ctx.k(1, 2), max_steps=60000, max_rows=60000)
+    # std-level effects: an error is recorded by appending to the error text (String::push_str), whatever private helper or
+    # newtype wraps it; a module filter is accepted by Vec::push; the private helpers are inlined
+    PUSHSTR = r'^std::string::String::(push_str|push)$|as std::fmt::Write>::write_str$'
+    NI = [r'parse_level_filter$', r'level_sort$|sort_by_descending_name_length$', r'util::eprint_']
+    EFF = [PUSHSTR, r'parse_level_filter$', r'Vec::<T, A>::push$', r'as std::iter::Iterator>::next$']
+    I = FDI(f, effects=EFF, no_inline=NI, no_models=[r'Iterator>?::any$'], loop_k=ctx.k(1, 2), max_steps=80000, max_rows=80000)
     rows = I.run(b.path, arg_names=['spec'])
     bad_ok = bad_push = None
     n_ok = n_err = n_errseg = n_ws = 0
     for r in rows:
         if r.undecided:
             raise CheckError(f"R17.3 parse table UNDECIDED: {r.undecided}")
-        # (a) Ok only when the collected error text is empty; otherwise parse_err(text, spec)
+        # (a) Ok only when the collected error text is empty (the last emptiness test of a String on the row decides)
         empt = [(r.long(a), v) for a, v in r.cond if re.match(r'^std::string::String::is_empty\(', a)]
-        errs_empty = next((v for a, v in reversed(empt) if 'parse_errs' in a or 'String::new' in a), None)
+        errs_empty = empt[-1][1] if empt else None
         is_ok = isinstance(r.result, Agg) and r.result.variant == 'Ok'
-        via_parse_err = isinstance(r.result, Sym) and re.search(r'parse_err#\d+$', r.result.n) is not None
+        is_err = (isinstance(r.result, Agg) and r.result.variant == 'Err') or (isinstance(r.result, Sym) and 'parse_err' in r.result.n)
         if is_ok:
             n_ok += 1
             if errs_empty is not True:
                 bad_ok = "parse returns Ok on a path that does not test the collected error text for emptiness"
-        elif via_parse_err:
+        elif is_err:
             n_err += 1
-            if errs_empty is True and not any(e[0].endswith('push_err') for e in r.effects) and 'is_empty' in ''.join(a for a, v in empt):
-                pass
         # (b) per comma-separated segment: an error recorded -> nothing pushed
         seg = None
         segs = []
         for i, e in enumerate(r.effects):
             nm = e[0].split('::')[-1]
             if nm == 'next' and _splits_at(e[2]['x'][0], ','):
-                seg = {'err': False, 'push': False, 'ws': []}
+                seg = {'err': False, 'push': False}
                 segs.append(seg)
             elif seg is not None:
-                if nm == 'push_err':
+                if re.search(PUSHSTR, e[0]):
                     seg['err'] = True
-                elif nm == 'contains_whitespace':
-                    seg['ws'].append(i + 1)
                 elif nm == 'push' and 'ModuleFilter' in (r.long(e[1][1]) + ' '.join(map(str, e[2]['x']))):
                     seg['push'] = True
-        for a, v in r.cond:
-            m_ = re.search(r'contains_whitespace#(\d+)$', a)
-            if m_ and v is True:
-                for sg in segs:
-                    if int(m_.group(1)) in sg['ws']:
-                        sg['err'] = True
-                        n_ws += 1
-        for sg in segs:
+        # the last segment header (next() == None) is followed by the text-filter part: not a segment
+        for sg in segs[:-1] if segs else []:
             if sg['err']:
                 n_errseg += 1
                 if sg['push']:
-                    bad_push = "a segment that produced an error text (push_err / whitespace in the name) is still pushed to the result"
+                    bad_push = "a segment that produced an error text (invalid level / whitespace in the name / malformed part) is still pushed to the result"
+        n_ws += sum(1 for a, v in r.cond if re.search(r'is_whitespace', a) and v is True)
     if not (bad_ok or bad_push) and (n_ok < 2 or n_err < 2 or n_errseg < 2 or n_ws < 1):
         raise CheckError(f"R17.3: form of parse not recognised (ok rows {n_ok}, error rows {n_err}, erroneous segments {n_errseg}, whitespace cases {n_ws})")
     R.check('R17.3', f"{b.path}|ok-iff-no-error-text", not bad_ok, f"{n_ok} Ok rows all behind parse_errs.is_empty(); {n_err} rows return parse_err(text, spec)",
             f"LogSpecification::parse can return Ok although an error text was collected: {bad_ok}", where=b.loc(), sample={'rows': len(rows)})
     R.check('R17.3', f"{b.path}|erroneous-segments-not-pushed", not bad_push, f"{n_errseg} erroneous segments on {len(rows)} rows: none pushed",
             f"LogSpecification::parse: {bad_push}", where=b.loc())
-    pe = ctx.body(r'^log_specification::parse_err$')
-    agg = [s for blk in pe.blocks for s in blk['stmts'] if s['k'] == 'assign' and s['rv']['k'] == 'agg' and s['rv'].get('variant') in ('Parse', 'Err')]
-    R.check('R17.3', f"{pe.path}", len(agg) >= 2, "Err(FlexiLoggerError::Parse(errors, spec))", "parse_err does not build Err(Parse(..))", where=pe.loc())
+    # the error value carries the error text and the salvaged specification: Err(FlexiLoggerError::Parse(..)) is built in code parse() reaches
+    reach = cg.reachable([b.path], spawn=False)
+    sites = [(b2, bb) for (b2, bb, s_) in aggregate_sites(f, r'FlexiLoggerError$', 'Parse') if b2.path in reach or root_fn(b2.path) in reach]
+    R.check('R17.3', 'parse-error-value', bool(sites), "Err(FlexiLoggerError::Parse(errors, spec)) built on the error path of parse",
+            "parse() no longer builds FlexiLoggerError::Parse(errors, spec) for a malformed specification", where=b.loc())
